@@ -23,6 +23,11 @@ COVERAGE TABLE
   strings denote types   probe sections decl / fwd / lists / named / names / paramacc / tparam compiled in-package, in a separate package and in
                          the external _test package, with an assertion file from the spec.  ABSENT: AcceptsContext with a non-stdlib package
                          named context; accessors called with out-of-range ArgCallListSlice bounds.
+  one variable, pkg twice  spec/DataModelShapes.tla Repeat: p.G[p.G[q.T]], map[p.E]p.G[q.T], func(p.T) p.G[q.T], struct fields, LG2[p.E, p.G[q.T]], behind
+                         pointers/slices/chans; as parameter+result+variadic element, as the SOLE mention of q, and as type-parameter constraint.
+  adjacent equal types   spec/DataModelShapes.tla Adjacent: (a, b E), (a, b E, cs ...E), (p int, xs, ys []E, zs ...E), (dst []E, src ...E), named and
+                         unnamed, results too; probe section paramlists ties ArgTypeListEllipsis / ArgTypeList to the per-parameter accessors.
+                         ABSENT: a TLC-side textual relation ArgList = join(MethodArg) (would be stronger than "denote"; the toolchain decides).
   every Param accessor   for .Params AND .Returns (Variadic, TypeStringEllipsis, TypeStringVariadicUnderlying, MethodArg, CallName, Nillable,
                          Var.*): DataModel.tla ExpParam / ExpResult.  POINT: IsSlice is dumped but has no contract value (named slice types absent).
   names                  distinct / valid / not capturing, user-written and GENERATED (GenPre), blank identifiers.
@@ -34,6 +39,8 @@ import os
 import re
 import subprocess
 import sys
+import threading
+import time
 
 sys.path.insert(0, os.path.join(os.path.dirname(__file__), "..", "lib"))
 from vlib import VERIF, MachineryError, main  # noqa: E402
@@ -174,14 +181,75 @@ def pick_programs(ctx, sp, tier):
     return pids
 
 
+def load_shapes(ctx, tier, out):
+    """C14's own families (spec/DataModelShapes.tla: Repeat, Adjacent) through Codegen.tla: PROG / PRED as for every other
+    family, plus the DMCLASS lines (which programs contain the situations, decided by DataModel.tla predicates)."""
+    try:
+        cfg = "DataModelShapes_thorough.cfg" if tier == "thorough" else "DataModelShapes_quick.cfg"
+        r = ctx.tlc("DataModelShapes", cfg, workers=1, timeout=1500 if tier == "thorough" else 400)
+        out["r"] = r
+    except BaseException as ex:      # re-raised by the caller (this runs in a thread)
+        out["exc"] = ex
+
+
+def merge_shapes(ctx, sp, out, tier):
+    if "exc" in out:
+        raise out["exc"]
+    r = out["r"]
+    if r.violated:
+        raise MachineryError("Codegen.tla over DataModelShapes: %s violated at model level:\n%s" % (r.violated, cw.short_tail(r)))
+    if not r.ok:
+        raise MachineryError("TLC failed on DataModelShapes:\n%s" % cw.short_tail(r, 30))
+    mine = []
+    for x in r.prints("PROG"):
+        pid = x["prog"]["pid"]
+        if not x["wellformed"]:
+            raise MachineryError("DataModelShapes produced an ill-formed program (not legal Go): " + pid)
+        if pid in sp.progs:
+            raise MachineryError("program ids are not unique: " + pid)
+        sp.progs[pid] = x
+        mine.append(pid)
+    n = 0
+    for x in r.prints("PRED"):
+        if isinstance(x["imports"], list):
+            x["imports"] = {}
+        sp.preds[(x["pid"], x["tmpl"], bool(x["inpkg"]), bool(x["ens"]))] = x
+        n += 1
+    if not mine or n != 6 * len(mine):
+        raise MachineryError("DataModelShapes export incomplete: %d programs, %d predictions" % (len(mine), n))
+    klass = {x["pid"]: x for x in r.prints("DMCLASS")}
+    if not set(mine) <= set(klass):
+        raise MachineryError("DMCLASS lines missing for %d programs" % len(set(mine) - set(klass)))
+    sp.tlc["datamodelshapes"] = {"generated": r.generated, "distinct": r.distinct, "wall": round(r.wall, 1), "programs": len(mine)}
+    # harness job: which of the enumerated programs are executed.  Adjacent: all.  Repeat: thorough all; quick a seeded
+    # 2 of the package pairs per (kind, position) stratum
+    by = {}
+    for pid in sorted(mine):
+        pr = sp.progs[pid]["prog"]
+        by.setdefault((pr["fam"], pr["feat"], pr["pos"]) if pr["fam"] == "repeat" else (pr["fam"], pid), []).append(pid)
+    sel = []
+    for st in sorted(by):
+        k = len(by[st]) if tier == "thorough" or st[0] != "repeat" else min(2, len(by[st]))
+        sel += ctx.rng.sample(by[st], k)
+    return sel, klass
+
+
 def run(ctx):
     tier = ctx.tier
+    shp = {}
+    th = threading.Thread(target=load_shapes, args=(ctx, tier, shp))
+    th.start()
+    time.sleep(1.0)          # ctx.tlc numbers its scratch directories: let the first call pick its own
     sp = cw.load_space(ctx, tier)
+    th.join()
     cw.T(ctx, "space loaded")
     ctx.mockery()
     cw.T(ctx, "binary built")
     drv = ctx.build_driver("gofileinfo")
     pids = pick_programs(ctx, sp, tier)
+    shape_pids, klass = merge_shapes(ctx, sp, shp, tier)
+    pids += shape_pids
+    cw.T(ctx, "DataModelShapes merged (%d programs run)" % len(shape_pids))
     base = {}
     for c in sp.cfgs:
         cfg = c["cfg"]
@@ -373,8 +441,28 @@ def run(ctx):
     if n_eval < 100 and not getattr(ctx, "replay", None):
         raise MachineryError("vacuous: only %d cases evaluated" % n_eval)
     kinds = {cs.prog["fam"] for cs in live}
-    if not replay and not {"shape", "ident", "pkgs", "generic", "embed", "unnamed"} <= kinds:
+    if not replay and not {"shape", "ident", "pkgs", "generic", "embed", "unnamed", "repeat", "adjacent"} <= kinds:
         raise MachineryError("vacuous: families missing from the executed sample: %s" % kinds)
+    if not replay:
+        # the widened input classes really ran (classification by DataModel.tla predicates, exported as DMCLASS)
+        ran = {}
+        for cs in live:
+            k = klass.get(cs.pid)
+            if k is None or cs.cid not in dumps:
+                continue
+            if k["repeated"]:
+                ran.setdefault(("repeated", cs.prog["pos"], cs.cfg["place"] == "samepkg"), set()).add(cs.pid)
+            for m_ in k["sameasnext"]:
+                if m_["slice_then_variadic"]:
+                    ran.setdefault(("slice-then-variadic",), set()).add(cs.pid)
+                for i_ in m_["at"]:
+                    ran.setdefault(("same-as-next", "first" if i_ == 1 else "last" if i_ == m_["nparams"] - 1 else "middle"), set()).add(cs.pid)
+        need = [("repeated", pos_, inp_) for pos_ in ("sig", "sole", "tparam") for inp_ in (True, False)] + \
+               [("slice-then-variadic",), ("same-as-next", "first"), ("same-as-next", "middle"), ("same-as-next", "last")]
+        lack = [n_ for n_ in need if not ran.get(n_)]
+        if lack:
+            raise MachineryError("vacuous: input classes of DataModelShapes.tla not executed: %s" % lack)
+        ctx.cov["datamodelshapes_classes_run"] = {"/".join(map(str, k_)): len(v_) for k_, v_ in sorted(ran.items())}
     ctx.cov["evaluations"] = n_eval
     ctx.cov["distinct_nontrivial"] = len({(cs.pid, cs.cfg["place"]) for cs in live if sp.progs[cs.pid]["methods"]})
     ctx.cov["rule"] = ("one evaluation = one (program, in/out-of-package) probe output type-checked with its assertion file and its dump "
